@@ -41,11 +41,11 @@ def report(R, cases, viol):
 
 def run(R):
     R.trusted += ["translator harness/cmd/gen_govhandlers (go/ast; exact statement shapes of SetProposalDurationsProposalHandler.Apply and ProposalRouter.ApplyProposal, anything else is rejected)",
-                  "harness/cmd/c08: the proposal router is rebuilt from the five real probe handlers wrapped by a call logger; msg server, keeper, EndBlocker, router.ApplyProposal are the real ones",
+                  "harness/cmd/c08: the proposal router is rebuilt from six real handlers (five gov ones + spending UpdateSpendingPool with its real dynamic-voter methods) wrapped by a call logger; a registry upsert with hash h9 is made to fail after the real handler wrote (probe of the router's cache); msg server, keepers, EndBlocker, router.ApplyProposal are the real ones",
                   "Model/GovWorld.v: hand-written model of the five probe handlers and of seven network properties, validated by the differential run",
                   "Flocq binary32 (theorem C08_tally_float_exact_refuted_and_partial only) depends on ClassicalDedekindReals.sig_not_dec, ClassicalDedekindReals.sig_forall_dec, FunctionalExtensionality.functional_extensionality_dep, Classical_Prop.classic; the other 19 theorems are closed under the global context"]
     R.assume += ["proposal handlers write only state outside proposals/votes/queues (the model's handler type is A -> outcome A)",
-                 "dynamic-voter (spending pool) proposals are covered by the lifecycle theorems through the oracles nvoters/quorum_of/end_secs but are not exercised by the harness",
+                 "dynamic-voter proposals: spending UpdateSpendingPoolProposal is modelled and exercised (owner accounts only, no owner roles); the distribution / withdraw pool proposals are covered by the lifecycle theorems through the oracles only",
                  "councilor rank bookkeeping (OnCouncilorAct/Absent) and the average-slash argument of handlers are not modelled; durations and block counts stay below 2^31 (no int64/time.Duration wrap-around)",
                  "a panic inside EndBlocker (property C06) is observed as 'panic' and the block's writes are discarded; the model does the same"]
     if not R.gen("gen_govhandlers", "GovHandlers.v"):
